@@ -599,11 +599,15 @@ func runC18Case(bin, dir string, c c18case, sh *core.Shard) (sig, what, inconclu
 	for _, s := range survivors {
 		for _, ep := range eps {
 			st := probe(s, ep)
-			if st != 200 {
-				// believed only if still settled
-				if ok2, _ := settled(survivors); ok2 {
-					st = probe(s, ep)
+			for try := 0; st != 200 && try < 3; try++ {
+				// an unexpected answer is believed only if routing was settled before and
+				// after it: a survivor that is suspected for a moment on a loaded machine
+				// is legitimately skipped by routing
+				if !core.WaitUntil(60*time.Second, 50*time.Millisecond, func() bool { ok2, _ := settled(survivors); return ok2 }) {
+					return "", "", "survivors did not settle again while probing"
 				}
+				sh.Count("probe_retries_after_unsettled_routing", 1)
+				st = probe(s, ep)
 			}
 			if st != 200 {
 				return "no-recovery", fmt.Sprintf("%s: listeners are re-attached and routing has settled, but a request for %q through %s answers %d", c, ep, s.id, st), ""
